@@ -26,17 +26,39 @@ Binary(a, b) == << Op("add", <<a, b>>), Op("lt", <<a, b>>), Op("getitem", <<a, b
                    [k |-> "catch_all", items |-> <<a, b>>, cls |-> <<"ValueError", "KeyError">>, recover |-> "recover_all"],
                    [k |-> "seq", items |-> <<a, b>>] >>
 
-Flat(ss) == FoldSeq(LAMBDA s, acc : acc \o s, <<>>, ss)
-L1 == Leaves \o Flat([i \in 1..Len(Leaves) |-> Unary(Leaves[i])])
-        \o Flat([i \in 1..Len(Leaves) |-> Flat([j \in 1..Len(Leaves) |-> Binary(Leaves[i], Leaves[j])])])
-L2 == Flat([i \in 1..Len(L1) |-> Unary(L1[i])])
-        \o Flat([i \in 1..Len(L1) |-> Flat([j \in 1..Len(Leaves) |-> Binary(L1[i], Leaves[j]) \o Binary(Leaves[j], L1[i])])])
-Programs == IF Deep THEN L1 \o L2 ELSE L1
+\* programs are addressed by index arithmetic (materialising the depth-2 sequence at every step would
+\* be quadratic): level 1 = leaves, unary(leaf), binary(leaf, leaf); level 2 = unary(l1),
+\* binary(l1, leaf), binary(leaf, l1)
+CONSTANTS Stride, Offset     \* depth 2 is sampled: indices Offset, Offset + Stride, ... beyond level 1
+NL == Len(Leaves)
+NU == Len(Unary(I1))
+NB == Len(Binary(I1, I1))
+N1 == NL + NL * NU + NL * NL * NB
+L1At(n) ==
+  IF n <= NL THEN Leaves[n]
+  ELSE IF n <= NL + NL * NU
+       THEN LET m == n - NL - 1 IN Unary(Leaves[(m \div NU) + 1])[(m % NU) + 1]
+       ELSE LET m == n - NL - NL * NU - 1
+                i == (m \div (NL * NB)) + 1
+                j == ((m \div NB) % NL) + 1
+            IN Binary(Leaves[i], Leaves[j])[(m % NB) + 1]
+N2 == N1 * NU + 2 * N1 * NL * NB
+L2At(n) ==
+  IF n <= N1 * NU
+  THEN LET m == n - 1 IN Unary(L1At((m \div NU) + 1))[(m % NU) + 1]
+  ELSE LET m == n - N1 * NU - 1
+           side == m % 2
+           q == m \div 2
+           a == L1At((q \div (NL * NB)) + 1)
+           l == Leaves[((q \div NB) % NL) + 1]
+       IN IF side = 0 THEN Binary(a, l)[(q % NB) + 1] ELSE Binary(l, a)[(q % NB) + 1]
+Total == IF Deep THEN N1 + N2 ELSE N1
+ProgAt(n) == IF n <= N1 THEN L1At(n) ELSE L2At(n - N1)
 
 VARIABLE i
 Init == i = 1
-Next == /\ i <= Len(Programs)
-        /\ PrintT("PROG " \o ToJson([id |-> i, e |-> Programs[i], outs |-> SetToSeq(Outs(Programs[i], EmptyDict))]))
-        /\ i' = i + 1
+Next == /\ i <= Total
+        /\ PrintT("PROG " \o ToJson([id |-> i, e |-> ProgAt(i), outs |-> SetToSeq(Outs(ProgAt(i), EmptyDict))]))
+        /\ i' = IF i < N1 THEN i + 1 ELSE IF i = N1 THEN N1 + Offset ELSE i + Stride
 Spec == Init /\ [][Next]_i
 =============================================================================
